@@ -148,6 +148,8 @@ def relocate(jobs):
                         (decoy / "sub").mkdir(parents=True, exist_ok=True)
                         os.chdir(decoy)
                     before = canon(H.dump(ds, dst, None))
+                    # the handle that is going to write has looked at the dataset before (and is looked through again afterwards)
+                    H.dump(ds_w, dst, ds_w)
                     with H.DatasetFiller(ds_w) as f:
                         H.apply_ops(f, more["ops"], 5000)
                     after = canon(H.dump(Dataset(dst), dst, ds_w))
@@ -177,7 +179,7 @@ def versions(triples):
         orig = json.loads(f.read_text())
         for t in triples:
             d = json.loads(json.dumps(orig))
-            d["metadata"]["sedpack_version"] = ".".join(str(x) for x in t)
+            d["metadata"]["sedpack_version"] = t if isinstance(t, str) else ".".join(str(x) for x in t)
             f.write_text(json.dumps(d))
             try:
                 Dataset(tmp / "d")
